@@ -16,7 +16,7 @@ TECHNIQUE = ('differential + metamorphic runtime monitors on generated acyclic r
 RULE = ('cases = acyclic rule sets over <= 8 names (acyclic including the undefined->default edge): random expression '
         'bodies mixing role checks, recording checks and rule: references; dedicated shapes: alias chains to depth 8, '
         'diamonds, references under not/and/or, undefined references; with and without a default rule (option default name, constructor name, '
-        'constructor check object); every rule enforced under all 16 subsets of 4 roles; stratum `redefinition`: some rules are redefined under the living enforcer (merge, store update, item assignment, overwrite) and everything is re-decided against the new definitions. Non-trivial = the '
+        'constructor check object); every rule enforced under all 16 subsets of 4 roles; stratum `redefinition`: some rules are redefined under the living enforcer (merge, store update, item assignment, overwrite) and everything is re-decided against the new definitions. Stratum `checker-tool`: the same rule sets written to a file and decided by the console checker (its own stand-in enforcer), incl. an unknown policy name. Non-trivial = the '
         'rule set contains at least one rule: reference reached from the enforced rule; distinct = distinct rule set.')
 ASSUMPTIONS = ['role:/@/! leaves evaluate as C01/C04 state', 'the harness registers two private check kinds and removes them afterwards']
 LEVEL_TEXT = ('Seeded sampling of acyclic reference graphs with targeted shapes (chains, diamonds, undefined references), '
@@ -25,7 +25,8 @@ LEVEL_TEXT = ('Seeded sampling of acyclic reference graphs with targeted shapes 
 LEVEL_NOTE = 'trusted: the reference evaluator with expansion; generated graphs are acyclic by construction (topological order)'
 PLAN = {'quick': dict(shards=4, wall=60), 'thorough': dict(shards=16, wall=400)}
 MIN = {'evaluations': 300, 'reference_decisions': 5000, 'inlined_comparisons': 200, 'current_rule_observations': 500,
-       'undefined_reference_decisions': 100, 'three_arg_calls': 100, 'redefinition_decisions': 2000}
+       'undefined_reference_decisions': 100, 'three_arg_calls': 100, 'redefinition_decisions': 2000, 'unknown_name_direct_decisions': 1000, 'checker_tool_decisions': 500,
+       'checker_tool_undefined_reference_decisions': 50}
 ANCHORS = ['oslo_policy._checks:RuleCheck.__call__', 'oslo_policy._checks:_check', 'oslo_policy.policy:Rules.__missing__',
            'oslo_policy.policy:Enforcer.enforce']
 REQUIRED_ANCHORS = ['oslo_policy.policy:Enforcer.enforce']
@@ -232,6 +233,20 @@ def check_case(ctx, case):
                 ctx.violation('nested-check-told-wrong-policy-name', case,
                               {'rules': texts, 'enforced': nm, 'current_rule_seen': wrong[:3]})
                 return
+    # (iii) an undefined reference behaves exactly like enforcing an unknown policy name directly
+    for roles in SUBSETS:
+        stats = {'object_default': case['default_mode'] == 'ctor-object'}
+        want = ev(('ref', 'pv-unknown-policy'), rules, default, roles, stats)
+        try:
+            direct = bool(enf.enforce('pv-unknown-policy', {}, {'roles': list(roles)}))
+        except Exception as e:
+            direct = 'EXC:' + type(e).__name__
+        ctx.count('unknown_name_direct_decisions')
+        if direct != want:
+            ctx.violation('unknown-policy-not-like-undefined-reference', case,
+                          {'rules': texts, 'default': default, 'default_mode': case['default_mode'], 'roles': roles,
+                           'enforcing_unknown_name_directly': direct, 'undefined_reference_decides': want})
+            break
     # (ii) inline one reference
     cands = [(nm, x) for nm in rules for x in set(expr.refs(rules[nm])) if x in rules]
     if cands:
@@ -252,6 +267,54 @@ def check_case(ctx, case):
                               {'rules': texts, 'rule': nm, 'inlined_reference': x, 'inlined_text': t2[nm],
                                'roles': roles, 'with_reference': a, 'inlined': b})
                 break
+
+
+def check_tool(ctx, case):
+    """The same alias semantics inside the console checker (oslopolicy-checker evaluates the check trees itself, with its
+    own stand-in enforcer): rule:NAME decides as NAME, an undefined reference as the file's `default` rule (else deny)."""
+    import contextlib
+    import io
+    import json
+    from oslo_policy import shell
+    from pv.gen import files
+    if case['default_mode'] not in ('none', 'option-default'):
+        return
+    rules = {k: fromjson(v) for k, v in case['rules'].items()}
+    default = case['default']
+    texts = {k: text_of(v) for k, v in rules.items()}
+    if any('pvrec3:' in t or 'pvrec4:' in t for t in texts.values()):
+        # the tool calls the top-level check with current_rule=... by keyword; a three-argument custom class, or one that
+        # names its fourth parameter differently, cannot take it. That is
+        # the tool's calling convention, not alias semantics: outside this property.
+        ctx.count('tool_cases_skipped_three_arg_kind')
+        return
+    tree = files.Tree(dirs=())
+    try:
+        tree.write('p.json', texts, 'json')
+        vr = ctx.sub_rnd('tool', repr(sorted(texts.items())))
+        for roles in vr.sample(SUBSETS, 3):
+            tree.write_text('a.json', json.dumps({'token': {'roles': [{'name': r} for r in roles], 'user': {'id': 'u'}}}))
+            for nm in list(rules) + ['pv-unknown-policy']:
+                stats = {}
+                want = ev(rules[nm] if nm in rules else ('ref', nm), rules, default, roles, stats)
+                out = io.StringIO()
+                try:
+                    with contextlib.redirect_stdout(out):
+                        shell.tool(tree.path('p.json'), tree.path('a.json'), nm)
+                    got = out.getvalue().strip()
+                except Exception as e:
+                    got = 'EXC:' + type(e).__name__
+                ctx.count('checker_tool_decisions')
+                if stats.get('undefined'):
+                    ctx.count('checker_tool_undefined_reference_decisions')
+                if got != ('passed: %s' if want else 'failed: %s') % nm:
+                    ctx.violation('checker-tool-alias-not-transparent' if not stats.get('undefined') else
+                                  'checker-tool-undefined-reference-not-like-unknown-policy', dict(case, tool=True),
+                                  {'rules': texts, 'default': default, 'checked': nm, 'roles': roles, 'expected_pass': want, 'printed': got})
+                    return
+        ctx.case(['tool', texts], nontrivial=any(expr.refs(a) for a in rules.values()), stratum='checker-tool')
+    finally:
+        tree.cleanup()
 
 
 def check_redefinition(ctx, case):
@@ -285,7 +348,15 @@ def check_redefinition(ctx, case):
     cur.update(new)
     newtexts = {k: text_of(v) for k, v in new.items()}
     how = case['how']
-    if how == 'merge':
+    if how == 'delete':
+        # a referenced rule is deleted from the living store: references to it are undefined from now on
+        victim = sorted(new)[0]
+        cur = {k: v for k, v in rules.items() if k != victim}
+        try:
+            del enf.rules[victim]
+        except KeyError:
+            pass
+    elif how == 'merge':
         enf.set_rules(policy.Rules.from_dict(newtexts), overwrite=False)
     elif how == 'update':
         enf.rules.update({k: _parser.parse_rule(v) for k, v in newtexts.items()})
@@ -318,7 +389,9 @@ def run(ctx):
                     victims = ctx.rnd.sample(names, min(len(names), ctx.rnd.randint(1, 2)))
                     redefine = {v: gen_body(ctx.rnd, 1, ['role:a', 'role:b', 'role:c', 'role:d', '@', '!', 'pvrec:c']) for v in victims}
                     check_redefinition(ctx, dict(case, redefinition=True, redefine=redefine,
-                                                 how=ctx.rnd.choice(['merge', 'update', 'setitem', 'overwrite'])))
+                                                 how=ctx.rnd.choice(['merge', 'update', 'setitem', 'overwrite', 'delete'])))
+            if i % 4 == 1:
+                check_tool(ctx, case)
             if i % 300 == 0:
                 ctx.sample({'rules': {k: text_of(v) for k, v in case['rules'].items()}, 'default': case['default'],
                             'shape': case['shape']})
@@ -333,6 +406,8 @@ def replay(ctx, case):
     try:
         if case.get('redefinition'):
             return check_redefinition(ctx, case)
+        if case.get('tool'):
+            return check_tool(ctx, case)
         check_case(ctx, case)
     finally:
         remove_kinds()
